@@ -484,8 +484,12 @@ func TestC25(t *testing.T) {
 		"filter menu of %d filters to the policies of a core (2) and a non-core (3) store, received validly; admission part: "+
 		"every sequence x %d configurations x 9 ingress kinds (4 link types x neighbour matches/does not, unknown interface) x "+
 		"last-entry next {local, other} x signatures {all good, byte flipped at entry i, foreign key at entry i}; after each "+
-		"reception the propagator runs once over all 4/5 propagation interfaces; a case = one reception; non-trivial = beacon "+
-		"got stored", maxLen, len(pool), int(pool[len(pool)-1].ISD()), len(menu), len(admCfgs))
+		"reception the propagator runs once over all 4/5 propagation interfaces; the sequences also range over the LOCAL AS "+
+		"itself (beacons already containing it): those are received validly under 6 configurations (core / non-core x "+
+		"propagation policy allowing / forbidding ISD loops / forbidding + limits); store part: every sequence is also put "+
+		"directly into the beacon DB with all usages under the same 6 configurations and the propagator is run; a case = one "+
+		"reception or one direct insertion; non-trivial = beacon got stored", maxLen, len(pool), int(pool[len(pool)-1].ISD()),
+		len(menu), len(admCfgs))
 
 	var outMu sync.Mutex
 	outcomes := map[string]int64{}
@@ -670,7 +674,7 @@ func TestC25(t *testing.T) {
 				ifID, neigh = c25IfID(in.lt, nj), pool[nj]
 			}
 			viol := func(key string, detail func() map[string]any) {
-				violRanked(key, fmt.Sprintf("%d/%04d/%s/%03d%s/%v/%s", len(ias), si, in.name, len(svc.cfg.String()), svc.cfg.String(), !v.nextLocal,
+				violRanked(key, fmt.Sprintf("0/%d/%04d/%s/%03d%s/%v/%s", len(ias), si, in.name, len(svc.cfg.String()), svc.cfg.String(), !v.nextLocal,
 					v.sig.String()), detail)
 			}
 			detail := func() map[string]any {
@@ -847,7 +851,7 @@ func TestC25(t *testing.T) {
 					"stored_usage": c25UsageName(usage), "ingress_interface": ifID, "local": c25Local.String()}
 			}
 			viol := func(key string, detail func() map[string]any) {
-				violRanked(key, fmt.Sprintf("%d/%04d/zz-direct/%03d%s", len(ias), si, len(svc.cfg.String()), svc.cfg.String()), detail)
+				violRanked(key, fmt.Sprintf("1/%d/%04d/zz-direct/%03d%s", len(ias), si, len(svc.cfg.String()), svc.cfg.String()), detail)
 			}
 			local["direct-insert"]++
 			checkProp(svc, true, detail, viol)
@@ -914,7 +918,8 @@ func TestC25(t *testing.T) {
 	r.Sample(map[string]any{"config": admCfgs[1].String(), "beacon": fmt.Sprint([]addr.IA{pool[3], pool[0]}),
 		"ingress": "peer/neighbour", "signatures": "foreign-key@1"})
 	r.Assumptions = []string{
-		"beacons never contain the local AS (an honest upstream does not send them; the statement is silent)",
+		"beacons that contain the local AS are generated too (a misbehaving neighbour may send them): whether they are stored is not judged (the statement is silent), but like every stored beacon they must respect the limits of their usages and must never be propagated into an AS loop; their admission dimensions (ingress, next hop, signatures) are not varied",
+		"every beacon is additionally put directly into the beacon DB with all usages of the store kind and the propagator is run on it: whatever the store holds, however it got there, nothing may be sent over an interface where the resulting path repeats an AS (or re-enters an ISD when forbidden)",
 		"a policy accepts a beacon iff length <= MaxHopsLength (default 10), no entry's AS number / ISD is block-listed, and - when AllowIsdLoop is false - the received entries do not leave and re-enter an ISD (doc/manuals/control.rst); for the storing decision only the received entries count",
 		"beacons that already contain an AS loop: whether they are stored is not constrained (the code rejects them in every policy); if stored they must still respect length and block lists of their usages, and must never be propagated",
 		"the converse directions are also demanded: a beacon meeting every stated condition is stored, and a stored beacon with propagation usage is sent on every propagation interface where no loop arises (fresh store, BestSetSize 20 > 1 beacon, first propagator run)",
